@@ -405,6 +405,38 @@ def list_layout_table_cases():
                                "debug": mode // 2, "provs": [], "layouts": {"M0": "as_list"}}
 
 
+def unhashable_element_table_cases():
+    """Every set-like type x element types whose LOADED values can be unhashable x data that make them so."""
+    kinds = [lambda e: ["set", e, "typing"], lambda e: ["set", e, "builtin"], lambda e: ["frozenset", e, "typing"],
+             lambda e: ["abc", "Set", e, "typing"], lambda e: ["abc", "MutableSet", e, "typing"]]
+    elems = {
+        "any": (["any"], [[1], {"$": "d", "v": [["a", 1]]}, {"$": "set", "v": [1]}, {"$": "bytearray", "h": "00"}]),
+        "object": (["object"], [[1], {"$": "d", "v": []}]),
+        "list_int": (["list", ["int"], "typing"], [[1], []]),
+        "dict": (["dict", ["str"], ["int"], "typing"], [{"$": "d", "v": [["a", 1]]}]),
+        "vtuple_any": (["vtuple", ["any"], "typing"], [[3, [4]], {"$": "t", "v": [{"$": "d", "v": []}]}]),
+        "tuple_str_any": (["tuple", [["str"], ["any"]], "typing"], [["k", [1]]]),
+        "decimal": (["decimal"], ["sNaN", {"$": "dec", "s": "sNaN"}]),
+        "optional_list": (["optional", ["list", ["int"], "typing"], "optional"], [[1]]),
+        "union_list_int": (["union", [["list", ["int"], "typing"], ["int"]], "typing"], [[1]]),
+    }
+    for mk in kinds:
+        for ename, (espec, bad_items) in sorted(elems.items()):
+            for item in bad_items:
+                for shape in ("bare", "second_item", "in_list", "in_model"):
+                    t = mk(espec)
+                    datum = [item] if shape != "second_item" else [item, item]
+                    if shape == "in_list":
+                        t, datum = ["list", t, "typing"], [datum]
+                    elif shape == "in_model":
+                        t = ["model", {"name": "M0", "kind": "dataclass", "fields": [{"n": "k", "t": ["int"], "d": None},
+                                                                                     {"n": "s", "t": t, "d": None}]}]
+                        datum = {"$": "d", "v": [["k", "bad"], ["s", datum]]}
+                    for mode in range(6):
+                        yield {"t": t, "datum": datum, "ops": ["table", f"unhashable_element:{ename}"], "strict": bool(mode % 2),
+                               "debug": mode // 2, "provs": [], "layouts": {}}
+
+
 def extra_field_table_cases():
     """Models that collect unknown keys into a TYPED field (extra_in='<field>'): the collected mapping goes through that field's
     loader, which can fail (Dict[str, int] given a str value, a non-str key ...), at the root and one level down."""
@@ -436,6 +468,13 @@ def extra_field_table_cases():
 
 
 def explore(ctx: runner.Ctx):
+    n_ue = 0
+    for i, c in enumerate(unhashable_element_table_cases()):
+        n_ue += 1
+        if i % ctx.nshards == ctx.shard:
+            runner.guarded(ctx, lambda k: check_case(ctx, k), c)
+    ctx.mark_exhaustive(f"unhashable-element table: {n_ue} cases = 5 set-like types x 9 element types whose loaded values can be "
+                        f"unhashable x data x (bare, second item, list element, model field) x 6 mode combinations")
     n_ef = 0
     for i, c in enumerate(extra_field_table_cases()):
         n_ef += 1
